@@ -216,6 +216,16 @@ func TestC20(t *testing.T) {
 			zodiacFest.Eval(dayCase{j})
 		}
 	}
+	// a dense window of days asked again in scrambled order (same oracle, different predecessor: a memo keyed on too
+	// little answers the previous question)
+	{
+		start := ref.JDN(2018, 1, 1) + ev.Shard*230
+		for _, perm := range ev.Shuffled(460, ev.Pick(2, 8), 20) {
+			for _, k := range perm {
+				zodiacFest.Eval(dayCase{start + k})
+			}
+		}
+	}
 	zodiacFest.Rapid(ev.Share(ev.Pick(24000, 240000)), func(t *rapid.T) dayCase {
 		y := gen.Year(t, 1, 9998)
 		switch rapid.IntRange(0, 3).Draw(t, "kind") {
